@@ -118,6 +118,11 @@ def run_case(case, cid):
                 matrix = case["kind"].endswith("Matrix") or case["op"] == "q2m"
                 nm = pure.Namer(case["labels"], matrix)
                 model = cls(case["terms"])
+                if case["kind"] != "dict" and cid % 5 == 0 and case["op"] != "q2m":
+                    # a model object with history: a term over one more label came and went (its caches still mention the label)
+                    extra = 7 if case["kind"].endswith("Matrix") else "__gone"
+                    model[(extra,)] += 1
+                    model[(extra,)] -= 1
                 later = []
                 if case.get("set_mapping"):
                     # a user-chosen mapping, handed over in an insertion order that differs from the integer order
